@@ -86,6 +86,8 @@ def run_shard(desc, ctx):
     fam.append([['foreign', 'csv_same_stem'], ['meta', 'quality', 43], ['reload']])
     fam.append([['meta', 'quality', 44], ['foreign', 'csv_same_stem'], ['foreign', 'tab_csv'], ['reload']])
     fam.append([['meta', 'group', 45], ['foreign', 'open_quote_big'], ['reload'], ['meta', 'group', 46], ['reload']])
+    fam.append([['meta', 'group', 47], ['foreign', 'dangling_link'], ['reload'], ['foreign', 'csv_tab_cell'], ['reload']])
+    fam.append([['foreign', 'csv_tab_cell'], ['meta', 'quality', 48], ['foreign', 'dangling_link'], ['reload']])
     fam.append([['clusters', 7], ['meta', 'group', 15], ['reload'], ['clusters', 8], ['meta', 'group', 16], ['clusters_back'], ['meta_back', 'group']])
     for j, ops in enumerate(fam):
         for rep in range(2):
@@ -118,7 +120,7 @@ def rand_ops(rng):
         elif k <= 6:
             ops.append(['foreign', ['valid_tsv', 'valid_csv', 'empty', 'header_only', 'garbage', 'ragged', 'no_cluster_id',
                                     'cluster_info', 'csv_same_field_late', 'csv_same_field_early', 'comma_tsv', 'pandas_index',
-                                    'csv_same_stem', 'tab_csv', 'open_quote_big'][int(rng.integers(0, 15))]])
+                                    'csv_same_stem', 'tab_csv', 'open_quote_big', 'csv_tab_cell', 'dangling_link'][int(rng.integers(0, 17))]])
         elif k == 7:
             ops.append(['subset', int(rng.integers(1, 6)), int(rng.integers(1, 4)), [1.0, 1, 2.5][int(rng.integers(0, 3))]])
         elif k == 8:
@@ -146,6 +148,10 @@ FOREIGN = {
     'tab_csv': ('cluster_tabs.csv', 'cluster_id\ttfield\n0\t1\n3\tx y\n', {'tfield': {0: 1, 3: 'x y'}}),       # legacy phy: tab-separated .csv
     # a quote that is never closed in front of more than 128 KiB of rows (the csv module gives up with its own error class)
     'open_quote_big': ('cluster_quote.tsv', 'cluster_id\tqf\n0\t"abc\n' + ''.join('%d\tvalue number %d\n' % (i, i) for i in range(1, 7000)), {}),
+    # a comma-separated table with a tab inside a quoted free-text cell
+    'csv_tab_cell': ('cluster_notes.csv', 'cluster_id,note5,n6\n0,"a\tb",1\n1,plain,2\n', {'note5': {0: 'a\tb', 1: 'plain'}, 'n6': {0: 1, 1: 2}}),
+    # a table that is a symbolic link to a file that no longer exists
+    'dangling_link': ('cluster_gone.tsv', 'LINK', {}),
     'no_cluster_id': ('other.csv', 'id,thing\n0,1\n1,2\n', {}),
     'cluster_info': ('cluster_info.tsv', 'cluster_id\tgroup\tquality\n0\tINFO\t999\n1\tINFO\t999\n', {}),
 }
@@ -176,6 +182,8 @@ def _run(case, ctx, d):
     if case['seed'][-1] % 11 == 8 and not one_template:
         # a recording shorter than one waveform window: every window is clipped at both ends
         opts.update(nsw=8, n_samples=int(rng.integers(4, 7)), ns=6, raw_parts=1, rate=100.)
+    if case['seed'][-1] % 4 == 2 and not one_template and 'nsw' in opts and opts.get('n_samples', 0) > 20:
+        opts.update(raw_offset=16, raw_parts=2, raw_ext='.bin')       # a header before the samples of each of two raw files
     spec = random_spec(rng, **opts)
     if one_template:
         # every spike belongs to one template, the other templates are unused
@@ -206,7 +214,7 @@ def _run(case, ctx, d):
     kinds = [o[0] for o in ops]
     repeated = any(kinds.count(k) >= 2 for k in ('clusters', 'subset')) or \
         any(sum(1 for o in ops if o[0] == 'meta' and o[1] == f) >= 2 for f in FIELDS)
-    malformed = any(o[0] == 'foreign' and o[1] in ('empty', 'garbage', 'ragged', 'header_only', 'open_quote_big') for o in ops)
+    malformed = any(o[0] == 'foreign' and o[1] in ('empty', 'garbage', 'ragged', 'header_only', 'open_quote_big', 'dangling_link') for o in ops)
     desc = {'seed': case['seed'], 'opts': opts, 'ops': ops}
     ctx.count(1, key=hkey(tuple(case['seed']), repr(ops)), nontrivial=repeated or malformed,
               cell=('enum' if case.get('enum') else 'random', opts['names'], 'len%d' % min(len(ops), 6)))
@@ -274,6 +282,11 @@ def _run(case, ctx, d):
                 ref['clusters'] = new.astype(np.int64)
             elif k == 'foreign':
                 fn, text, exp = FOREIGN[op[1]]
+                if text == 'LINK':
+                    if not os.path.lexists(os.path.join(d, fn)):
+                        os.symlink(os.path.join(d, 'no such folder', 'table.tsv'), os.path.join(d, fn))
+                    ref['foreign'][fn] = exp
+                    continue
                 with open(os.path.join(d, fn), 'wb') as f:
                     f.write(text.encode() if text is not None else b'\xff\xfe\x00\x9c\x00garbage\n\x80\x81')
                 ref['foreign'][fn] = exp
